@@ -462,9 +462,9 @@ impl Check for C17 {
     }
     fn run(case: &C17Case, ctx: &Ctx) -> Result<CaseInfo, Violation> {
         match (&case.edge, case.hist.cfg.hasher) {
-            (Some(e), HasherKind::Blake3) => run_edge::<B3>(&case.hist.cfg, e, ctx),
+            (Some(e), HasherKind::Blake3 | HasherKind::TailLabel) => run_edge::<B3>(&case.hist.cfg, e, ctx),
             (Some(e), HasherKind::Sha2) => run_edge::<S2>(&case.hist.cfg, e, ctx),
-            (None, HasherKind::Blake3) => run_case::<B3>(&case.hist, ctx),
+            (None, HasherKind::Blake3 | HasherKind::TailLabel) => run_case::<B3>(&case.hist, ctx),
             (None, HasherKind::Sha2) => run_case::<S2>(&case.hist, ctx),
         }
     }
